@@ -48,6 +48,30 @@ func genC09(g *Gen, tier string) *Program {
 		// valid key of the sibling
 		script = append(script, step{g.Intn(5), kinds[g.Intn(4)], names[g.Intn(2)]})
 	}
+	// in some programs the children have been used and closed before: what the
+	// tasks then race for is the first use of the replacement, while report
+	// passes are still retiring the closed scope
+	if g.Bool(25) {
+		seen := map[int]bool{}
+		for _, st := range script {
+			if st.scope == 0 || seen[st.scope] {
+				continue
+			}
+			seen[st.scope] = true
+			d := 90 + st.scope
+			switch st.scope {
+			case 1:
+				p.Prelude = append(p.Prelude, Op{K: "sub", S: 0, D: d, Name: "a"})
+			case 3:
+				p.Prelude = append(p.Prelude, Op{K: "sub", S: 0, D: d, Name: "b"})
+			case 4:
+				p.Prelude = append(p.Prelude, Op{K: "tag", S: 0, D: d, Tags: map[string]string{"k": "w"}})
+			default:
+				p.Prelude = append(p.Prelude, Op{K: "tag", S: 0, D: d, Tags: map[string]string{"k": "v"}})
+			}
+			p.Prelude = append(p.Prelude, Op{K: "counter", S: d, M: d, Name: "old"}, Op{K: "inc", M: d, I: 1}, Op{K: "close", S: d})
+		}
+	}
 	// histograms use bucket sets that collide in the root's shared bucket cache;
 	// the set is tied to the name, so one identity always has one set
 	fam := collidingFamily(g)
